@@ -13,7 +13,8 @@ import MinterModel.Tx
          `FrozenFunds.PunishFrozenFundsWithID(height, height+unbond, candidate.ID)`, `Validators.PunishByzantineValidator`,
          `Candidates.PunishByzantineCandidate(height, addr)`
     4. frozen funds stored under `height`: credit the owner (`MoveToCandidateID == 0`) or `Candidates.Delegate` an *update*
-       with bip value 0 to the target candidate; then `FrozenFunds.Delete(height)`.
+       with bip value 0 to the target candidate — or, when the target candidate no longer exists, re-freeze the coins as an
+       unbond due `height + unbond` (fix 0ed8cf3); then `FrozenFunds.Delete(height)`.
 
   Not modelled (no effect on the components compared): reward/price update, max gas, `calculatePowers`, the halt / version
   stops (the harness reports those with an `H` line instead of `S begin`), `Halts.Delete`, events DB, the checker.
@@ -224,39 +225,44 @@ def byzPhase (P : Params) (o : Oracle) (h : Nat) : List Nat → State → M (Sta
 
 def candById (id : Nat) (c : Candidate) : Bool := c.id == id
 
-/-- One matured item: owner's balance, or an update (bip value 0) on the target candidate. -/
-def matureOne (f : Frozen) (s : State) : M (State × BEvent) :=
+/-- The fund a matured move becomes when its target candidate is gone: an unbond of the stake it came from, due one unbond
+    period after this height (`FrozenFunds.AddFund(height+unbond, item.Address, item.CandidateKey, item.CandidateID, item.Coin, amount, 0)`). -/
+def refreeze (unbond h : Nat) (f : Frozen) : Frozen := { f with height := h + unbond, moveTo := 0 }
+
+/-- One matured item at height `h`: owner's balance (`MoveToCandidateID == 0`); else, when `Candidates.Exists(PubKey(id))`,
+    an update (bip value 0) on the target candidate; else (target removed while the move was in flight) re-frozen as an unbond. -/
+def matureOne (unbond h : Nat) (f : Frozen) (s : State) : M (State × List BEvent) :=
   if f.moveTo = 0 then
     .ok ({ s with balances := Bag.add s.balances (f.addr, f.coin) f.value },
-         match f.candKey with
-         | some k => .unbond f.addr f.value f.coin k
-         | none => .unlock f.addr f.value f.coin)
+         [match f.candKey with
+          | some k => .unbond f.addr f.value f.coin k
+          | none => .unlock f.addr f.value f.coin])
   else
-    match f.candKey with
-    | none => .error (.panic "StakeMoveEvent: nil CandidateKey")
-    | some k =>
-      match findFirst (candById f.moveTo) s.candidates with
-      | none => .error (.panic "Candidates.Delegate: move target is not a candidate")
-      | some c =>
+    match findFirst (candById f.moveTo) s.candidates with
+    | none => .ok ({ s with frozen := s.frozen ++ [refreeze unbond h f] }, [])
+    | some c =>
+      match f.candKey with
+      | none => .error (.panic "StakeMoveEvent: nil CandidateKey")
+      | some k =>
         .ok ({ s with candidates := updFirst (candById f.moveTo)
                         (fun c => { c with updates := c.updates ++ [{ owner := f.addr, coin := f.coin, value := f.value, bip := 0 }] }) s.candidates },
-             .move f.addr f.value f.coin k c.pubkey)
+             [.move f.addr f.value f.coin k c.pubkey])
 
-def matureAll : List Frozen → State → M (State × List BEvent)
+def matureAll (unbond h : Nat) : List Frozen → State → M (State × List BEvent)
   | [], s => .ok (s, [])
   | f :: t, s =>
-    match matureOne f s with
+    match matureOne unbond h f s with
     | .error e => .error e
     | .ok (s1, e1) =>
-      match matureAll t s1 with
+      match matureAll unbond h t s1 with
       | .error e => .error e
-      | .ok (s2, e2) => .ok (s2, e1 :: e2)
+      | .ok (s2, e2) => .ok (s2, e1 ++ e2)
 
 def dueAt (h : Nat) (f : Frozen) : Bool := f.height == h
 
-/-- Apply the funds stored under `h`, then `FrozenFunds.Delete(h)`. -/
-def maturityPhase (h : Nat) (s : State) : M (State × List BEvent) :=
-  match matureAll (s.frozen.filter (dueAt h)) s with
+/-- Apply the funds stored under `h` (the list as it is when the loop starts), then `FrozenFunds.Delete(h)`. -/
+def maturityPhase (unbond h : Nat) (s : State) : M (State × List BEvent) :=
+  match matureAll unbond h (s.frozen.filter (dueAt h)) s with
   | .error e => .error e
   | .ok (s1, ev) => .ok ({ s1 with frozen := s1.frozen.filter (fun f => !dueAt h f) }, ev)
 
@@ -269,7 +275,7 @@ def beginBlock (P : Params) (o : Oracle) (s : State) (r : BeginReq) (grace : Boo
     match byzPhase P o r.height r.byz sA with
     | .error e => .error e
     | .ok (sB, evB) =>
-      match maturityPhase r.height sB with
+      match maturityPhase P.unbond r.height sB with
       | .error e => .error e
       | .ok (sC, evC) => .ok (sC, evA ++ (evB ++ evC))
 
